@@ -430,7 +430,12 @@ func ruleParserDrains(c *Ctx, r *Report, rule string) {
 		// the step that picks parse's error result
 		if fn.Pkg() != nil && fn.Pkg().Path() == bclPath {
 			res := fn.Type().(*types.Signature).Results()
-			return res.Len() == 1 && isErrorType(res.At(0).Type())
+			if res.Len() == 1 && isErrorType(res.At(0).Type()) {
+				return true
+			}
+			if root, ok := c.infoFor(fd).Defs[fd.Name].(*types.Func); ok {
+				return res.Len() > 0 && types.Identical(res, root.Type().(*types.Signature).Results())
+			}
 		}
 		return false
 	}
